@@ -123,8 +123,8 @@ theorem C14_force : (removeWith s uses name ver recursive check true dn).1 ≠ .
   exact collect_not_refused _ sb true dn _ (Or.inr rfl) _ _ _ _ _ hc
 
 /-- **`remove` ends** (tree with the D33 repair): on a stack whose tables have no unsetup lines, dependency
-cycles included, the command never dies in the recursion (`RecursionError`) and the in-use index is always
-built — the only ways not to remove are the refusal and an unknown product. -/
+cycles included, the command never dies in the recursion (`RecursionError`), the in-use index is always built and
+no table fails to load — the only ways not to remove are the refusal and an unknown product. -/
 theorem C14_terminates (hns : NoUnsetup s.db) (e : Err)
     (h : (remove s name ver recursive check force dn).1 = .failed e) : e = .refused ∨ e = .notFound := by
   unfold remove at h
@@ -133,49 +133,12 @@ theorem C14_terminates (hns : NoUnsetup s.db) (e : Err)
   rcases removeWith_failed h with ⟨_, ⟨hu, _⟩ | ⟨hu, _⟩⟩ | ⟨sb', hc⟩
   · cases hu
   · cases hu
-  · have := (collect_fuel s.db hns sb' force dn (name, ver) s.removeFuel name (some ver) recursive []
+  · have hfuel := (collect_fuel s.db hns sb' force dn (name, ver) s.removeFuel name (some ver) recursive []
       (removeFuel_enough s)).1
-    cases e with
-    | refused => exact Or.inl rfl
-    | notFound => exact Or.inr rfl
-    | cycle =>
-      exfalso
-      -- `collect` never yields `cycle`
-      have hcyc : ∀ f n v r sn, collect s.db sb' force dn (name, ver) f n v r sn ≠ .error .cycle := by
-        intro f
-        induction f with
-        | zero => intro n v r sn; simp [collect]
-        | succ k ih =>
-          intro n v r sn
-          unfold collect
-          split
-          · simp
-          · split
-            · simp
-            · simp only
-              split
-              · simp
-              · have loop : ∀ qs acc sn', collectLoop sb' force (name, ver) r
-                    (fun q sn => collect s.db sb' force dn (name, ver) k q.name q.ver (q.name != n) sn) qs acc sn'
-                    ≠ .error .cycle := by
-                  intro qs
-                  induction qs with
-                  | nil => intro acc sn'; simp [collectLoop]
-                  | cons q qs ihq =>
-                    intro acc sn'
-                    rw [collectLoop_cons]
-                    split
-                    · simp
-                    · split
-                      · cases hq : collect s.db sb' force dn (name, ver) k q.name q.ver (q.name != n) sn' with
-                        | error e' =>
-                          simp only
-                          intro hh; injection hh with hh; subst hh; exact ih _ _ _ _ hq
-                        | ok r' => obtain ⟨sub, sn2⟩ := r'; exact ihq _ _
-                      · exact ihq _ _
-                exact loop _ _ _
-      exact hcyc _ _ _ _ _ hc
-    | outOfFuel => exact absurd hc this
+    rcases collect_error_kinds s.db hns sb' force dn (name, ver) _ _ _ _ _ _ hc with rfl | rfl | rfl
+    · exact Or.inl rfl
+    · exact Or.inr rfl
+    · exact absurd hc hfuel
 
 /-! Non-vacuity: `app 1 → lib 1 ← other 1`.  Removing `app` recursively is refused (lib is in use by `other`),
 succeeds with `--noCheck` taking `lib` along, and a plain removal of `app` leaves everything else alone.
@@ -186,7 +149,8 @@ def l : Str := [108]
 def o : Str := [111]
 def v1 : Str := [49]
 def ex : State :=
-  { decls := [⟨a, v1, [⟨false, false, l, none, false⟩]⟩, ⟨l, v1, []⟩, ⟨o, v1, [⟨false, false, l, none, false⟩]⟩]
+  { decls := [⟨a, v1, [⟨false, false, l, none, false⟩], false⟩, ⟨l, v1, [], false⟩,
+              ⟨o, v1, [⟨false, false, l, none, false⟩], false⟩]
     tags := [(a, currentTag, v1), (l, currentTag, v1), (o, currentTag, v1)]
     dirs := [(a, v1), (l, v1), (o, v1)] }
 
@@ -198,7 +162,7 @@ example : (remove ex a v1 false true false none).2.1.decls.map (·.name) = [l, o
 def x : Str := [120]
 def y : Str := [121]
 def cyc : State :=
-  { decls := [⟨x, v1, [⟨false, false, y, none, false⟩]⟩, ⟨y, v1, [⟨false, false, x, none, false⟩]⟩]
+  { decls := [⟨x, v1, [⟨false, false, y, none, false⟩], false⟩, ⟨y, v1, [⟨false, false, x, none, false⟩], false⟩]
     tags := [(x, currentTag, v1), (y, currentTag, v1)]
     dirs := [(x, v1), (y, v1)] }
 example : (remove cyc x v1 true false false none).2.2 = [⟨x, some v1, true⟩, ⟨y, some v1, true⟩] := by decide
